@@ -203,12 +203,15 @@ impl Function {
     }
 }
 
+/// Returns `Ok(None)` if a parameter or return type cannot be resolved (yet); like a field
+/// whose type is not available, this defers the owning type instead of failing, so that the
+/// outcome does not depend on the order in which types happen to be resolved.
 pub fn build(
     type_registry: &TypeRegistry,
     scope: &[ItemPath],
     is_vfunc: bool,
     function: &grammar::Function,
-) -> Result<Function, anyhow::Error> {
+) -> Result<Option<Function>, anyhow::Error> {
     let mut body = is_vfunc.then(|| FunctionBody::Vftable {
         function_name: function.name.0.clone(),
     });
@@ -275,40 +278,27 @@ pub fn build(
         );
     };
 
-    let arguments = function
-        .arguments
-        .iter()
-        .map(|a| match a {
-            grammar::Argument::ConstSelf => Ok(Argument::ConstSelf),
-            grammar::Argument::MutSelf => Ok(Argument::MutSelf),
-            grammar::Argument::Named(name, type_) => Ok(Argument::Field(
-                name.0.clone(),
-                type_registry
-                    .resolve_grammar_type(scope, type_)
-                    .ok_or_else(|| {
-                        anyhow::anyhow!(
-                            "failed to resolve type of field `{:?}` ({:?})",
-                            name,
-                            type_
-                        )
-                    })?,
-            )),
-        })
-        .collect::<anyhow::Result<Vec<_>>>()?;
+    let mut arguments = vec![];
+    for a in &function.arguments {
+        arguments.push(match a {
+            grammar::Argument::ConstSelf => Argument::ConstSelf,
+            grammar::Argument::MutSelf => Argument::MutSelf,
+            grammar::Argument::Named(name, type_) => {
+                let Some(type_) = type_registry.resolve_grammar_type(scope, type_) else {
+                    return Ok(None);
+                };
+                Argument::Field(name.0.clone(), type_)
+            }
+        });
+    }
 
-    let return_type = function
-        .return_type
-        .as_ref()
-        .map(|t| {
-            type_registry.resolve_grammar_type(scope, t).ok_or_else(|| {
-                anyhow::anyhow!(
-                    "failed to resolve return type of function `{}` ({:?})",
-                    function.name,
-                    t
-                )
-            })
-        })
-        .transpose()?;
+    let return_type = match &function.return_type {
+        Some(t) => match type_registry.resolve_grammar_type(scope, t) {
+            Some(t) => Some(t),
+            None => return Ok(None),
+        },
+        None => None,
+    };
 
     let calling_convention = calling_convention.unwrap_or_else(|| {
         // Assume that if the function has a self argument, it's a thiscall function, otherwise it's "system"
@@ -324,7 +314,7 @@ pub fn build(
         }
     });
 
-    Ok(Function {
+    Ok(Some(Function {
         visibility: function.visibility.into(),
         name: function.name.0.clone(),
         doc,
@@ -332,5 +322,5 @@ pub fn build(
         arguments,
         return_type,
         calling_convention,
-    })
+    }))
 }
